@@ -1059,45 +1059,109 @@ func lightStage(r *ev.Run, m int) {
 	l1 := render3d.NewSphereAreaLight(&model3d.Sphere{Center: model3d.XYZ(0, 0, 0), Radius: 1}, render3d.NewColor(1))
 	l2 := render3d.NewCylinderAreaLight(&model3d.Cylinder{P1: model3d.XYZ(5, 0, 0), P2: model3d.XYZ(5, 0, 2), Radius: 1}, render3d.NewColor(0.5))
 	l3 := render3d.NewMeshAreaLight(cat.Closed3(true)[0].Mesh().Translate(model3d.XYZ(-6, 0, 0)), render3d.NewColor(4))
-	j := render3d.JoinAreaLights(l1, l2, l3)
-	tot := l1.TotalEmission() + l2.TotalEmission() + l3.TotalEmission()
-	if !(math.Abs(j.TotalEmission()-tot) <= 1e-9*tot) {
-		r.Violation("JoinAreaLights/TotalEmission", fmt.Sprintf("TotalEmission %g, sum of the parts %g", j.TotalEmission(), tot), rcase{What: "JoinAreaLights"})
-	}
-	var cnt [3]float64
-	n := 1 << 12
-	for k := 0; k < n; k++ {
-		v, _ := latticeVal(k, 12)
-		// first draw scripted over a fine lattice, the rest from a real generator
-		src := &mixSource{first: v, rest: rand.NewSource(int64(k))}
-		p, _, _ := j.SampleLight(rand.New(src))
-		r.Eval(1)
+	l4 := render3d.NewSphereAreaLight(&model3d.Sphere{Center: model3d.XYZ(0, 9, 0), Radius: 0.5}, render3d.NewColor(0)) // emits nothing
+	parts := []render3d.AreaLight{l1, l2, l3, l4}
+	partOf := func(p c3) int {
 		switch {
+		case p.Y > 5:
+			return 3
 		case p.X < -3:
-			cnt[2]++
+			return 2
 		case p.X > 3:
-			cnt[1]++
-		default:
-			cnt[0]++
+			return 1
 		}
+		return 0
 	}
-	for i, l := range []render3d.AreaLight{l1, l2, l3} {
-		if !(math.Abs(cnt[i]/float64(n)-l.TotalEmission()/tot) <= 2.0/float64(n)) {
-			r.Violation("JoinAreaLights/selection", fmt.Sprintf("part %d is chosen with probability %.4f, its share of the emitted power is %.4f", i, cnt[i]/float64(n), l.TotalEmission()/tot), rcase{What: "JoinAreaLights"})
+	J := render3d.JoinAreaLights
+	// the same four lights in every grouping: flat, and with joined lights as first, middle and last operand
+	groupings := []struct {
+		name string
+		l    render3d.AreaLight
+	}{
+		{"(1,2,3)", J(l1, l2, l3)},
+		{"(1,2,3,dark)", J(l1, l2, l3, l4)},
+		{"(dark,1,2,3)", J(l4, l1, l2, l3)},
+		{"(1,(2,3))", J(l1, J(l2, l3))},
+		{"((1,2),3)", J(J(l1, l2), l3)},
+		{"(1,(2),3)", J(l1, J(l2), l3)},
+		{"(1,(2,dark),3)", J(l1, J(l2, l4), l3)},
+		{"((1,dark),(2,3))", J(J(l1, l4), J(l2, l3))},
+		{"(3,(2,(1,dark)))", J(l3, J(l2, J(l1, l4)))},
+		{"(2,2,1)", J(l2, l2, l1)},
+	}
+	for _, g := range groupings {
+		c := rcase{What: "JoinAreaLights", Params: g.name}
+		var tot float64
+		var want [4]float64
+		for _, ch := range g.name {
+			switch ch {
+			case '1':
+				want[0] += l1.TotalEmission()
+			case '2':
+				want[1] += l2.TotalEmission()
+			case '3':
+				want[2] += l3.TotalEmission()
+			}
 		}
+		for _, w := range want {
+			tot += w
+		}
+		if !(math.Abs(g.l.TotalEmission()-tot) <= 1e-9*tot) {
+			r.Violation("JoinAreaLights/TotalEmission", fmt.Sprintf("grouping %s: TotalEmission %g, sum of the parts %g", g.name, g.l.TotalEmission(), tot), c)
+		}
+		var cnt [4]float64
+		// one selection draw per nesting level: all of them are scripted over a lattice (12 bits for a flat join,
+		// 7 per level for two levels, 5 for three), the draws of the selected light come from a real generator
+		depth, d := 0, 0
+		for _, ch := range g.name {
+			if ch == '(' {
+				d++
+				if d > depth {
+					depth = d
+				}
+			} else if ch == ')' {
+				d--
+			}
+		}
+		bits := []int{0, 12, 7, 5}[depth]
+		per := 1 << uint(bits)
+		n := 1
+		for l := 0; l < depth; l++ {
+			n *= per
+		}
+		for k := 0; k < n; k++ {
+			var vals []int64
+			for l, kk := 0, k; l < depth; l++ {
+				v, _ := latticeVal(kk%per, bits)
+				vals = append(vals, v)
+				kk /= per
+			}
+			src := &mixSource{first: vals, rest: rand.NewSource(int64(k))}
+			p, _, _ := g.l.SampleLight(rand.New(src))
+			r.Eval(1)
+			cnt[partOf(p)]++
+		}
+		tol := 2.0 * float64(depth) / float64(per)
+		for i := range parts {
+			if !(math.Abs(cnt[i]/float64(n)-want[i]/tot) <= tol) {
+				r.Violation("JoinAreaLights/selection", fmt.Sprintf("grouping %s: light %d is chosen with probability %.4f, its share of the emitted power is %.4f", g.name, i+1, cnt[i]/float64(n), want[i]/tot), c)
+				break
+			}
+		}
+		r.NontrivialAdd(1)
 	}
 }
 
 type mixSource struct {
-	first int64
-	used  bool
+	first []int64
 	rest  rand.Source
 }
 
 func (m *mixSource) Int63() int64 {
-	if !m.used {
-		m.used = true
-		return m.first
+	if len(m.first) > 0 {
+		v := m.first[0]
+		m.first = m.first[1:]
+		return v
 	}
 	return m.rest.Int63()
 }
